@@ -23,7 +23,28 @@ def c12_jobs(tier):
 SIM_NOTE = ("Trusted base: the harness (recorder, oracle), tokio's paused clock and seeded scheduler, the mimalloc->system "
             "allocator shim. Held = held on the executions produced (bounded, sampled), not verified.")
 
+def c07_jobs(tier):
+    jobs = [sim("c07-direct", "c07", require_counters=["mailbox_full_observations"])]
+    if tier == "thorough":
+        jobs.append(sim("c07-h2", "c07", transport="h2", require_counters=["mailbox_full_observations"]))
+    return jobs
+
+
+def c18_jobs(tier):
+    return [sim("c18-namescan", "c18", evaluations_counter="inputs", require_counters=["inputs", "api_round_trips"])]
+
+
 PROPERTIES = {
+    "C18": {"level": "exploration", "jobs": c18_jobs, "engine": "dvsim (namescan mode)",
+            "technique": "runtime monitoring of the parsing API: exhaustive structured input enumeration checked against an independent grammar oracle, plus gRPC round trips",
+            "level_text": "Both name parsers are executed on an exhaustively enumerated family of ~3.6 million strings around the two fixed segments (all single-character edits of the prefix and of both segments, double edits, foreign same-length segments, all project/ID fillers up to length 3/4 over an alphabet with '/', '-', digits, letters and a multi-byte character), on random longer strings, and through Create->echo->Get round trips of the real services. An independent grammar decides acceptance; echo acceptance, same-resource and fixed-point are checked for every accepted string. The family is finite and enumerated completely (exhaustive: true), but the property quantifies over all strings, so the level is exploration.",
+            "level_note": "Trusted base: the oracle grammar in harness/src/scen/c18.rs. Rejecting more than the grammar is allowed by the property's 'only if' and is not flagged.",
+            "assumptions": ["empty project or ID segments are not flagged by the 'only if' rule; only shape, echo acceptance, same-resource, fixed-point and distinctness are"]},
+    "C07": {"level": "exploration", "jobs": c07_jobs, "engine": "dvsim",
+            "technique": "runtime monitoring: termination-at-quiescence oracle on a paused virtual clock over seeded burst workloads that saturate actor mailboxes",
+            "level_text": "Burst episodes larger than the 16-slot actor mailboxes (17-60 simultaneous calls mixed with Publish / DeleteSubscription / DeleteTopic / CreateSubscription and stream control messages) run against the real services; on the paused clock one virtual hour passes only when no task can run, so any call still pending then can never complete. Hook counters prove that mailboxes were actually full. Exploration: the quantifier is over schedules, which are sampled (seeded yields at every mailbox site).",
+            "level_note": SIM_NOTE,
+            "assumptions": ["'bounded amount of server work' is decided as: returned by the time the paused clock has auto-advanced one hour (5 min + 1 s for blocking pulls)"]},
     "C12": {"level": "exploration", "jobs": c12_jobs, "engine": "dvsim",
             "technique": "runtime monitoring: quiescence oracle over recorded client-boundary histories of seeded virtual-time episodes",
             "level_text": "Thousands of seeded episodes of the real gRPC stack on a paused clock: open streams (request side open/closed), blocked pulls and in-flight calls are raced against DeleteSubscription under seeded select!/yield schedules on two transports; one virtual second after the delete returned the monitor requires every stream to have ended NOT_FOUND and every blocked pull to have returned an error. Exploration is the right level because the quantifier is over schedules, which can only be sampled.",
